@@ -31,6 +31,23 @@ CHECKS.update({
  "C18": ("model_checking", "5/C18", "src(k) -> StreamToSubStream -> {i:x|join:SEP}: k in 0..4 (beyond the buffer), 3 separators, 3 modifier settings, every Mazurkiewicz trace; exactly one task, argument string = members in emission order, members resolve from the temp dir, audit Upstream = members",
          "documentation is silent on join + relocating modifier: only order and names are judged there."),
 })
+
+CHECKS.update({
+ "C10": ("model_checking", "5/C10", "every Mazurkiewicz trace of 12+ scenarios (commands and Go functions, multi-input/-output, fan-in, params, tagging, join) + forced map orders: each finalized output's .audit.json compared field by field with the reference lineage tree; plus the instant form: at every crash point of every schedule and after failing sibling tasks a finalized output has a valid audit file",
+         "IDs / absolute times not compared; G14 (tagging on a fan-out arm) judged under C12."),
+ "C11": ("fault_enumeration", "5/C11", "exhaustive history enumeration x schedule exploration: every RunTo prefix then Run; every distinct crash state + cleanup + resume; complete run then EVERY non-empty subset of task outputs deleted and re-run; lineage of every final output = reference lineage, untouched ancestors' records byte-identical, write->read->marshal identity",
+         "bounds: graphs G3/G7/G8/G14a (+G6/G6b thorough), <= 2 items."),
+ "C12": ("model_checking", "5/C12", "race-instrumented build (maps + struct fields assigned after construction are visible memory accesses) explored by DPOR + sleep sets / delay bounding; happens-before monitor from synchronisation edges only; unordered conflicting accesses in any explored execution = race (both functions reported)",
+         "dynamic happens-before: a race is reported only if some explored execution leaves the two accesses unordered; slice elements and loop conditions are not instrumented."),
+ "C13": ("exploration", "5/C13", "small-scope exhaustive enumeration of a path grammar (5 prefixes x <= 2 (3) directory segments x 10 segment shapes incl. placeholder look-alikes, inputs, extra files) - 21k (248k) one-task workflows executed with REAL bash; token must be at exactly the declared path and nowhere else, input resolved from inside the temp dir, extras at the same relative location",
+         "single task: no interleaving to explore; kernel / bash observed, not scheduled."),
+ "C17": ("model_checking", "5/C17", "real mkfifo + real bash producer/consumer under the controlled scheduler (async exec seam, exits observed only at quiescence, stuck children recognised from /proc/<pid>/stack); all schedules with <= 1 delay x payload sizes around the pipe buffer x slot counts; then the history run-again-in-place",
+         "delay-bounded (k=1), not closed; the inside of the kernel pipe is not scheduled."),
+ "C19": ("model_checking", "5/C19", "real components wired to recorder processes: combinators x port counts x stream lengths x every map-iteration variant x schedules (DPOR closed / delay bound 1); selector x ALL predicate patterns; splitter x line counts x limits x final newline; concatenator, sources, readers, globber against an independent matcher",
+         "bounds: <= 3 (4) ports, lengths <= 2 (+ beyond buffer), <= 7 lines."),
+ "C20": ("exploration", "5/C20", "small-scope exhaustive enumeration of audit lineage DAGs (79 shapes up to isomorphism, every weak order of start times incl. all tie patterns, 12 naming/param/tag/time-notation modes = 24.6k trees quick / 908k thorough) through the real audit2html / audit2tex / audit2bash code + 354 generated bash scripts re-executed with real bash",
+         "layout / escaping / displayed times not judged."),
+})
 NA = {}
 for c in ("C01","C02","C03","C09","C10","C11","C12","C13","C14","C15","C16","C17","C18","C19","C20"):
     if c not in CHECKS:
@@ -65,7 +82,7 @@ for pid, (level, ref, text, note) in sorted(CHECKS.items()):
         "engine": "vs",
         "level_claimed": {"category": level, "text": text, "design_ref": ref},
         "level_note": note + " Trusted base: the shim's channel/mutex semantics (conformance corpus, cross-checked against the unreduced explorer in setup), vinstr's rewriting, the reference evaluator.",
-        "technique": "bounded exhaustive model checking of the implementation (DPOR + sleep sets under a controlled scheduler; delay bounding as fallback)",
+        "technique": ("small-scope exhaustive enumeration of a finite input grammar on the real code against a reference model (bounded exhaustive exploration)" if level == "exploration" else "bounded exhaustive model checking of the implementation (DPOR + sleep sets under a controlled scheduler; delay bounding as fallback)" + ("; exhaustive crash-point / fault / history enumeration" if level == "fault_enumeration" else "")),
     })
 json.dump(m, open("/verif/MANIFEST.json", "w"), indent=1)
 print("checks:", [c["property_id"] for c in m["checks"]])
